@@ -2,9 +2,9 @@
    Proofs.IsoLazyProofs / IsoMatchProofs / IsoCompileProofs / IsoProofs.  Model: Model.Iso (hand-written, tied to
    chython/algorithms/isomorphism.py and chython/_functions.py by the correspondence of harness/checks/C07.py). *)
 From Coq Require Import ZArith List Bool Permutation.
-From Model Require Import PyBase Graph Rings Stereo Iso IsoStereo.
-From Proofs Require Import StereoProofs IsoLazyProofs IsoMatchProofs IsoCompileProofs IsoProofs IsoExt IsoAuto IsoStereoProofs IsoStereoExt IsoMatchStereo IsoCC IsoOpsTie IsoTrace.
-From Gen Require Import IsoOps.
+From Model Require Import PyBase Graph Rings Stereo Iso IsoStereo IsoStack.
+From Proofs Require Import StereoProofs IsoLazyProofs IsoMatchProofs IsoCompileProofs IsoProofs IsoExt IsoAuto IsoStereoProofs IsoStereoExt IsoMatchStereo IsoCC IsoOpsTie IsoTrace IsoMatchTie IsoStackProofs IsoStackExt IsoLazyTie.
+From Gen Require Import IsoOps IsoMatch IsoLazy.
 Import ListNotations.
 Open Scope Z_scope.
 
@@ -743,3 +743,98 @@ Theorem C07_get_mapping_trace_yields : forall (QA A QB B : Type) (amatch : QA ->
   map leaf_image (filter (full (Z.of_nat (length lq) - 1)) (get_mapping_trace amatch bmatch lq clo o_atoms o_bonds scope)).
 Proof. exact get_mapping_trace_yields. Qed.
 Print Assumptions C07_get_mapping_trace_yields.
+
+(* ROUND 4 -- tie by TRANSLATION.  tools/gen_isomatch.py translates, statement by statement and on every run, the decision-carrying loop bodies of
+   chython/algorithms/isomorphism.py into Gallina (Gen.IsoMatch): the start test and the candidate test of the reference matcher _get_mapping
+   (scope, injectivity, bond match, atom match, closure-SET equality, closure-bond matches), the automorphism-filter block of
+   Isomorphism._get_mapping (with the position of `seen = set()`), and the neighbour loop of _compile_query (tree edge / closure / skip).
+   The hand-written pieces of Model.Iso on which all theorems above rest are proved EQUAL to the translated functions, for all arguments. *)
+Theorem C07_init_ok_generated : forall (QA A : Type) (am : QA -> A -> bool) scope s_atom (na : Z * A),
+  g_init_ok am scope s_atom (fst na) (snd na) = zmem (fst na) scope && am s_atom (snd na).
+Proof. exact init_ok_generated. Qed.
+Print Assumptions C07_init_ok_generated.
+
+Theorem C07_cand_ok_generated : forall (QA A QB B : Type) (am : QA -> A -> bool) (bm : QB -> B -> bool)
+    (clo : closures_t QB) o_atoms o_bonds scope (mp : mapping) n s_n s_atom s_bond o_n o_bond,
+  g_cand_ok am bm clo o_atoms o_bonds scope mp (swap_mapping mp) n s_n s_atom s_bond o_n o_bond =
+  cand_ok am bm (clo_get clo s_n) o_atoms o_bonds scope mp n s_atom s_bond o_n o_bond.
+Proof. exact cand_ok_generated. Qed.
+Print Assumptions C07_cand_ok_generated.
+
+(* the whole matcher of the model = the same recursion over the TRANSLATED tests (so matcher_exact etc. are statements about them) *)
+Theorem C07_get_mapping_generated : forall (QA A QB B : Type) (am : QA -> A -> bool) (bm : QB -> B -> bool)
+    lq clo (o_atoms : list (Z * A)) (o_bonds : list (Z * list (Z * B))) scope,
+  get_mapping am bm lq clo o_atoms o_bonds scope = get_mapping_gen QA A QB B am bm lq clo o_atoms o_bonds scope.
+Proof. exact get_mapping_generated. Qed.
+Print Assumptions C07_get_mapping_generated.
+
+Theorem C07_cand_ok_generated_triangle :
+  let tb := [(1, [(2, 1); (3, 1)]); (2, [(1, 1); (3, 1)]); (3, [(1, 1); (2, 1)])] in
+  let ta := [(1, 6); (2, 6); (3, 6)] in
+  g_cand_ok Z.eqb Z.eqb [(3, [(1, 1)])] ta tb [1; 2; 3] [(1, 1); (2, 2)] (swap_mapping [(1, 1); (2, 2)]) 2 3 6 (Some 1) 3 1 = true /\
+  g_cand_ok Z.eqb Z.eqb [] ta tb [1; 2; 3] [(1, 1); (2, 2)] (swap_mapping [(1, 1); (2, 2)]) 2 3 6 (Some 1) 3 1 = false.
+Proof. exact cand_ok_generated_triangle. Qed.
+Print Assumptions C07_cand_ok_generated_triangle.
+
+Theorem C07_auto_filter_generated : forall flt seen ms, auto_filter flt seen ms = filter_stream flt seen ms.
+Proof. exact auto_filter_generated. Qed.
+Print Assumptions C07_auto_filter_generated.
+
+Theorem C07_cq_scan_generated : forall (QA QB : Type) (atoms : list (Z * QA)) front back seen (nbs : list (Z * QB)) stack clo,
+  cq_scan atoms front back seen nbs stack clo = cq_scan_gen atoms front back seen nbs stack clo.
+Proof. exact cq_scan_generated. Qed.
+Print Assumptions C07_cq_scan_generated.
+
+(* ROUND 4 -- FROM TRACE TO THEOREM.  Model.IsoStack is the reference matcher _get_mapping in its OWN form: the explicit stack, `path`, `mapping`,
+   `reversed_mapping` with the lazy clean-up of path[depth:], order_depth and the re-parenting n = path[order_depth[back]], one step per
+   `stack.pop()`, with the TRANSLATED start / candidate tests and Python's exceptions.  For every linear query of the shape _compile_query
+   produces (non-empty, distinct fronts, every later entry names an earlier front as back) the loop terminates without exception -- some
+   fuel suffices, so neither the out-of-fuel value nor an exception is the result -- and yields, IN ORDER, exactly the sequence of the
+   recursive Model.Iso.get_mapping about which matcher_sound / matcher_complete / matcher_NoDup / matcher_exact speak. *)
+Theorem C07_stack_loop_refines : forall (QA A QB B : Type) (am : QA -> A -> bool) (bm : QB -> B -> bool)
+    (lq : list (lentry QA QB)) clo (o_atoms : list (Z * A)) (o_bonds : list (Z * list (Z * B))) scope,
+  lq_shape_ok lq ->
+  exists fuel, sm_get_mapping am bm lq clo o_atoms o_bonds scope fuel = Ok (get_mapping am bm lq clo o_atoms o_bonds scope).
+Proof. exact sm_get_mapping_refines. Qed.
+Print Assumptions C07_stack_loop_refines.
+
+(* the shape hypothesis is a consequence of what _compile_query promises *)
+Theorem C07_compiled_shape_ok : forall (QA QB : Type) (atoms : list (Z * QA)) (bonds : list (Z * list (Z * QB))) comps clo,
+  compiled_ok atoms bonds comps clo -> forall c, In c comps -> lq_shape_ok c.
+Proof. exact @compiled_shape_ok. Qed.
+Print Assumptions C07_compiled_shape_ok.
+
+(* so for the orders of ANY compiled well-formed pattern, any target dictionaries and any scope: no hypothesis on the linear query is left *)
+Theorem C07_stack_loop_refines_compiled : forall (QA A QB B : Type) (am : QA -> A -> bool) (bm : QB -> B -> bool)
+    (q_atoms : list (Z * QA)) (q_bonds : list (Z * list (Z * QB))) comps clo,
+  wf_adj q_atoms q_bonds -> compile_query q_atoms q_bonds = Ok (comps, clo) ->
+  forall c, In c comps -> forall (o_atoms : list (Z * A)) (o_bonds : list (Z * list (Z * B))) scope,
+  exists fuel, sm_get_mapping am bm c clo o_atoms o_bonds scope fuel = Ok (get_mapping am bm c clo o_atoms o_bonds scope).
+Proof. exact @stack_loop_refines_compiled. Qed.
+Print Assumptions C07_stack_loop_refines_compiled.
+
+Theorem C07_stack_loop_example :
+  let tb := [(1, [(2, 1); (3, 1)]); (2, [(1, 1); (3, 1); (4, 1)]); (3, [(1, 1); (2, 1)]); (4, [(2, 1)])] in
+  let ta := [(1, 6); (2, 6); (3, 6); (4, 6)] in
+  let lq := [(1, None, 6, None); (2, Some 1, 6, Some 1); (3, Some 2, 6, Some 1)] in
+  zsm_get_mapping lq [] ta tb [1; 2; 3; 4] 100 = Ok (zget_mapping lq [] ta tb [1; 2; 3; 4]) /\
+  List.length (zget_mapping lq [] ta tb [1; 2; 3; 4]) = 4%nat /\
+  zsm_get_mapping lq [] ta tb [1; 2; 3; 4] 3 = Err OtherError.
+Proof. exact stack_loop_example. Qed.
+Print Assumptions C07_stack_loop_example.
+
+(* lazy_product (chython/_functions.py): the body of its inner loop is translated from the source on every run (tools/gen_isolazy.py ->
+   Gen.IsoLazy.g_lp_step; the skeleton around the body is compared with the expected text); the model's pass over the factors is the fold of
+   the translated step, so C07_lazy_product_exact / _In / _NoDup / _empty_iff speak about the translated body *)
+Theorem C07_lp_for_generated : forall (X : Type) nargs (fs : list (@fac X)) reached, lp_for nargs fs reached = lp_for_gen nargs fs reached.
+Proof. exact @lp_for_generated. Qed.
+Print Assumptions C07_lp_for_generated.
+
+(* fuel is monotone, so the refinement holds for ALL sufficiently large fuel: the out-of-fuel value can never be mistaken for a result *)
+Theorem C07_stack_loop_refines_all_fuel : forall (QA A QB B : Type) (am : QA -> A -> bool) (bm : QB -> B -> bool)
+    (lq : list (lentry QA QB)) clo (o_atoms : list (Z * A)) (o_bonds : list (Z * list (Z * B))) scope,
+  lq_shape_ok lq ->
+  exists fuel0, forall fuel, (fuel0 <= fuel)%nat ->
+    sm_get_mapping am bm lq clo o_atoms o_bonds scope fuel = Ok (get_mapping am bm lq clo o_atoms o_bonds scope).
+Proof. exact stack_loop_refines_all_fuel. Qed.
+Print Assumptions C07_stack_loop_refines_all_fuel.
